@@ -553,6 +553,46 @@ func genCollectionFrames(t *rapid.T) Case {
 		sb.WriteString(")")
 	}
 	rec(depth)
+	// the same under a tower of 10-130 further collections, with a sibling member of some
+	// layout added at one or two levels on the way out: what was learnt inside must still
+	// be known that far outside
+	if rapid.IntRange(0, 3).Draw(t, "tower") == 0 {
+		d := rapid.SampledFrom([]int{10, 15, 16, 17, 31, 32, 33, 40, 64, 65, 130}).Draw(t, "towerdepth")
+		if rapid.Bool().Draw(t, "plaintower") {
+			// a tower of plain frames around one simple member, and one sibling of the same
+			// or of another dimension at a drawn level on the way out
+			simple := []string{"POINT(1 2)", "POINT(1 2 3)", "POINT M (1 2 3)", "POINT(1 2 3 4)", "LINESTRING(1 2, 3 4)", "LINESTRING Z (1 2 3, 4 5 6)", "POINT EMPTY", "POINT Z EMPTY"}
+			sb.Reset()
+			sb.WriteString(strings.Repeat("GEOMETRYCOLLECTION(", d))
+			sb.WriteString(rapid.SampledFrom(simple).Draw(t, "towermember"))
+			at := rapid.IntRange(0, d-1).Draw(t, "sibat")
+			if rapid.Bool().Draw(t, "sibouter") {
+				at = d - 1 - rapid.IntRange(0, 2).Draw(t, "sibfromtop")
+			}
+			for i := 0; i < d; i++ {
+				if i == at {
+					sb.WriteString(", " + rapid.SampledFrom(simple).Draw(t, "towersibling"))
+				}
+				sb.WriteString(")")
+			}
+			return Case{Class: "collection-frames+plaintower", Text: Txt(sb.String())}
+		}
+		inner := sb.String()
+		sb.Reset()
+		for i := 0; i < d; i++ {
+			sb.WriteString(rapid.SampledFrom([]string{"GEOMETRYCOLLECTION (", "GEOMETRYCOLLECTION (", "GEOMETRYCOLLECTION(", "GEOMETRYCOLLECTION Z (", "GEOMETRYCOLLECTION M ("}).Draw(t, "towerframe"))
+		}
+		sb.WriteString(inner)
+		at1, at2 := rapid.IntRange(0, d-1).Draw(t, "sib1"), rapid.IntRange(0, d-1).Draw(t, "sib2")
+		for i := 0; i < d; i++ {
+			if i == at1 || (i == at2 && at2%2 == 0) {
+				sb.WriteString(", ")
+				member()
+			}
+			sb.WriteString(")")
+		}
+		return Case{Class: "collection-frames+tower", Text: Txt(sb.String())}
+	}
 	return Case{Class: "collection-frames", Text: Txt(sb.String())}
 }
 
@@ -565,7 +605,14 @@ func genCase(t *rapid.T) Case {
 	case 6, 7:
 		return genCollectionFrames(t)
 	case 8:
-		g := validTree(t)
+		// valid texts over every class of finite ordinates (whole numbers at the limits of
+		// machine integers, decimals, both ends of the range): accepted, so re-encoded and
+		// parsed again
+		floats := rapid.SampledFrom([]int{gen.SmallInt, gen.IntEdge, gen.IntEdge | gen.SmallInt, gen.Finite, gen.Decimalish | gen.SmallInt, gen.FullRange | gen.Denormal | gen.Zeros}).Draw(t, "vfloats")
+		g := gen.Tree(t, gen.TreeOpts{
+			Layouts: gen.Layouts4, Floats: floats, MaxDepth: 3, MaxParts: 3, MaxPts: 4,
+			Valid: true, FixEmptyCollections: true, FixedCollectionPct: 50, PEmpty: 25,
+		})
 		return Case{Class: "valid", Text: Txt(mustWrite(g, chooser(t)))}
 	default:
 		// raw strings over a WKT-flavoured alphabet
